@@ -260,18 +260,24 @@ func (r *RPCExecuteProgramRequest) EncodeTo(e *types.Encoder) {
 // DecodeFrom implements ProtocolObject.
 func (r *RPCExecuteProgramRequest) DecodeFrom(d *types.Decoder) {
 	r.FileContractID.DecodeFrom(d)
-	r.Program = make([]Instruction, d.ReadUint64())
-	for i := range r.Program {
+	// NOTE: the instruction count comes from the peer; grow the program as
+	// instructions actually decode instead of allocating it up front
+	n := d.ReadUint64()
+	r.Program = nil
+	for i := uint64(0); i < n; i++ {
 		var id types.Specifier
 		id.DecodeFrom(d)
-		r.Program[i] = instructionForID(id, d.ReadUint64())
-		if r.Program[i] == nil {
+		instr := instructionForID(id, d.ReadUint64())
+		if d.Err() != nil {
+			return
+		} else if instr == nil {
 			d.SetErr(fmt.Errorf("unrecognized instruction id: %q", id))
 			return
 		}
-		if r.Program[i].DecodeFrom(d); d.Err() != nil {
+		if instr.DecodeFrom(d); d.Err() != nil {
 			return
 		}
+		r.Program = append(r.Program, instr)
 	}
 	r.ProgramData = d.ReadBytes()
 }
@@ -305,8 +311,15 @@ func (r *RPCExecuteProgramResponse) DecodeFrom(d *types.Decoder) {
 	}
 	(*types.V1Currency)(&r.TotalCost).DecodeFrom(d)
 	(*types.V1Currency)(&r.FailureRefund).DecodeFrom(d)
-	r.Output = make([]byte, r.OutputLength)
-	d.Read(r.Output)
+	// NOTE: the output length comes from the peer; read the output in chunks
+	// so that memory is only allocated for data that actually arrives
+	r.Output = make([]byte, 0, min(r.OutputLength, 1<<16))
+	for rem := r.OutputLength; rem > 0 && d.Err() == nil; {
+		n := min(rem, 1<<20)
+		r.Output = append(r.Output, make([]byte, n)...)
+		d.Read(r.Output[uint64(len(r.Output))-n:])
+		rem -= n
+	}
 }
 
 // EncodeTo implements ProtocolObject.
